@@ -483,6 +483,32 @@ func (w *fileWeaver) syncLockCall(e ast.Expr) (ptr string, method string, ok boo
 	return ptr, fn.Name(), true
 }
 
+// lockRecvImpure reports whether the receiver of a sync Lock/Unlock call contains a call (`a.get(k).Lock()`):
+// such a receiver must be evaluated once - the model call and the real call have to see the same mutex, and the
+// expression may have effects.
+func (w *fileWeaver) lockRecvImpure(e ast.Expr) bool {
+	call, ok := e.(*ast.CallExpr)
+	if !ok {
+		return false
+	}
+	sel, ok := call.Fun.(*ast.SelectorExpr)
+	if !ok {
+		return false
+	}
+	impure := false
+	ast.Inspect(sel.X, func(n ast.Node) bool {
+		switch n.(type) {
+		case *ast.CallExpr, *ast.UnaryExpr:
+			if u, isU := n.(*ast.UnaryExpr); isU && u.Op != token.ARROW {
+				return true
+			}
+			impure = true
+		}
+		return true
+	})
+	return impure
+}
+
 func mode(method string) string {
 	if method == "RLock" || method == "RUnlock" {
 		return "simrt.R"
@@ -553,6 +579,19 @@ func (w *fileWeaver) stmt(outer ast.Stmt) {
 	switch x := st.(type) {
 	case *ast.ExprStmt:
 		if ptr, m, ok := w.syncLockCall(x.X); ok {
+			if w.lockRecvImpure(x.X) {
+				w.n++
+				v := fmt.Sprintf("_siml%d", w.n)
+				w.delRange(x.Pos(), x.End())
+				switch m {
+				case "Lock", "RLock":
+					w.ins(x.Pos(), fmt.Sprintf("{ %s := %s; simrt.BeforeLock(%s, %s, %s); %s.%s() }", v, ptr, v, mode(m), w.site(x.Pos(), "lock"), v, m))
+				default:
+					s := w.site(x.Pos(), "unlock")
+					w.ins(x.Pos(), fmt.Sprintf("{ %s := %s; simrt.BeforeUnlock(%s, %s, %s); %s.%s(); simrt.AfterUnlock(%s) }", v, ptr, v, mode(m), s, v, m, s))
+				}
+				return
+			}
 			switch m {
 			case "Lock", "RLock":
 				before(fmt.Sprintf("simrt.BeforeLock(%s, %s, %s); ", ptr, mode(m), w.site(x.Pos(), "lock")))
@@ -643,6 +682,12 @@ func (w *fileWeaver) stmt(outer ast.Stmt) {
 			// `defer x.Lock()` (re-taking a lock on the way out): the model has to see it like any other acquisition
 			s := w.site(x.Pos(), "dlock")
 			w.delRange(x.Pos(), x.End())
+			if w.lockRecvImpure(x.Call) {
+				w.n++
+				v := fmt.Sprintf("_siml%d", w.n)
+				w.ins(x.Pos(), fmt.Sprintf("%s := %s; defer func() { simrt.BeforeLock(%s, %s, %s); %s.%s() }()", v, ptr, v, mode(m), s, v, m))
+				return
+			}
 			w.ins(x.Pos(), fmt.Sprintf("defer func() { simrt.BeforeLock(%s, %s, %s); %s }()", ptr, mode(m), s, w.text(x.Call)))
 			return
 		}
@@ -652,6 +697,12 @@ func (w *fileWeaver) stmt(outer ast.Stmt) {
 			// point like any other)
 			s := w.site(x.Pos(), "dunlock")
 			w.delRange(x.Pos(), x.End())
+			if w.lockRecvImpure(x.Call) {
+				w.n++
+				v := fmt.Sprintf("_siml%d", w.n)
+				w.ins(x.Pos(), fmt.Sprintf("%s := %s; defer func() { simrt.BeforeUnlock(%s, %s, %s); %s.%s(); simrt.AfterUnlock(%s) }()", v, ptr, v, mode(m), s, v, m, s))
+				return
+			}
 			w.ins(x.Pos(), fmt.Sprintf("defer func() { simrt.BeforeUnlock(%s, %s, %s); %s; simrt.AfterUnlock(%s) }()", ptr, mode(m), s, w.text(x.Call), s))
 			return
 		}
